@@ -1351,12 +1351,15 @@ func (e *Exec) havocAll(h *Heap, why string) *Heap {
 			n.m[k] = v
 		}
 	}
+	var sk []string
 	for k := range e.eng.stable {
-		if _, ok := e.compSort[k]; ok {
-			n.m[k] = e.hget(h, k)
-		}
+		sk = append(sk, k)
 	}
 	for k := range e.eng.ghostVars {
+		sk = append(sk, k)
+	}
+	sort.Strings(sk)
+	for _, k := range sk {
 		if _, ok := e.compSort[k]; ok {
 			n.m[k] = e.hget(h, k)
 		}
